@@ -52,14 +52,18 @@ Example C16_success_maps_finished :
   && forallb (fun c => State_eqb (flux_state c) FINISHED) flux_success = true.
 Proof. exact success_maps_finished. Qed.
 
-(** LSF: EXIT is refined by the termination reason, nothing else is *)
+(** LSF: the adapter's refinement of a row's STAT by its exit reason
+    ([lsf_effective], rules regenerated from the source) is the manual's
+    ([lsf_row_code]): only EXIT is refined; EXIT + TERM_RUNLIMIT is TIMEDOUT,
+    EXIT + TERM_OWNER is CANCELLED, any other EXIT is FAILED *)
 Theorem C16_lsf_exit_refinement : forall stat reason,
-  (stat <> s "EXIT" -> lsf_effective stat reason = stat) /\
-  lsf_state (lsf_effective (s "EXIT") reason) =
+  lsf_effective stat reason = lsf_row_code stat reason /\
+  (stat <> s "EXIT" -> lsf_row_code stat reason = stat) /\
+  lsf_state (lsf_row_code (s "EXIT") reason) =
     (if contains lsf_term_runlimit reason then TIMEDOUT
      else if contains lsf_term_owner reason then CANCELLED
      else FAILED).
-Proof. exact lsf_effective_spec. Qed.
+Proof. exact lsf_row_code_spec. Qed.
 Print Assumptions C16_lsf_exit_refinement.
 
 (* ======================================================================== *)
@@ -173,7 +177,8 @@ Proof. exact slurm_seen_zero. Qed.
 Print Assumptions C16_slurm_seen_zero.
 
 (** bjobs: the state code of a row is its STAT field, EXIT refined by the
-    exit reason ([bj_pairs], [C16_lsf_exit_refinement]) *)
+    exit reason as the manual says ([bj_pairs] = rows of [C16_bjobs_row_code],
+    [lsf_row_code], [C16_lsf_exit_refinement]) *)
 Theorem C16_roundtrip_bjobs : forall jl t,
   wf_joblist jl = true -> wf_bjobs t = true -> lsf_nojob (print_bjobs t) = false ->
   exists st,
@@ -184,7 +189,7 @@ Proof. exact roundtrip_bjobs. Qed.
 Print Assumptions C16_roundtrip_bjobs.
 
 Theorem C16_bjobs_row_code : forall r,
-  bj_pair (BjRow r) = [(lf_text (b_id r), lsf_effective (lf_text (b_stat r)) (lf_text (b_reason r)))].
+  bj_pair (BjRow r) = [(lf_text (b_id r), lsf_row_code (lf_text (b_stat r)) (lf_text (b_reason r)))].
 Proof. exact bj_pair_row. Qed.
 Print Assumptions C16_bjobs_row_code.
 
